@@ -345,6 +345,18 @@ def redefine_dyn(keep: bool = False):
 LATE_FIELDS = [F("a", "str", "prop", "str", '""'), F("kid", "Expr | None", "opt", "any", "None")]
 
 
+def same_named_pair() -> tuple[Any, Any]:
+    """Two node classes of one name, the second derived from the first (class Name(base.Name): pass): instances with
+    the same field values.  Defined on demand, in the universe module (same module: legal)."""
+    src = "@dataclass(frozen=True, kw_only=True)\nclass Twin(Expr):\n    v: str = ''\n"
+    exec(compile(src, "<universe.v2 generated>", "exec"), M.__dict__)
+    base = M.Twin
+    src2 = "@dataclass(frozen=True, kw_only=True)\nclass Twin(_TwinBase):\n    pass\n"
+    M.__dict__["_TwinBase"] = base
+    exec(compile(src2, "<universe.v2 generated>", "exec"), M.__dict__)
+    return base, M.Twin
+
+
 def define_late() -> None:
     """A node class that comes into existence in the middle of a run (a plugin imported late): before this call its
     name is unknown to pyoak, afterwards it is an ordinary class of the universe (not in NODE_CLASSES, so that the
@@ -476,7 +488,7 @@ def _colliding_singletons(n: int = 3) -> list[list[int]]:
 _CS = _colliding_singletons()
 FS2_POOL = [[_CS[0], _CS[1], _CS[2]], [_CS[2], _CS[1], _CS[0]], [_CS[1], _CS[2], _CS[0]], [_CS[1], _CS[0]], [_CS[0], _CS[1]]] + [[], [[1]], [[1], [2]], [[2], [1]], [[1, 2], [3]], [[3], [1, 2]], [[1], [1, 2], [2]], [[2], [1, 2], [1]], [[8], [16], [0]], [[16], [8], [0]], [[1, 9], [9, 1, 17]], [[17, 1, 9], [9, 1]]]
 EBAG_POOL = [[], ["Color.RED"], ["red"], ["Shade.RED"], ["Color.RED", "Color.GREEN"], ["Shade.RED", "Shade.GREEN"], ["red", "green"], ["Kind.NUM"], [1], ["Kind.TXT"], ["1"], ["Op.ADD"], ["+"]]
-ANYBOX_POOL = [None, 1, "s", {"span": ["t", 1, 2]}, [["t", 1, 2], ["s", 3]], {"a": {"b": ["t", 1]}}, ["t", 1, 2]]
+ANYBOX_POOL = [{"sentinel": "s1"}, {"sentinel": "s2"}, None, 1, "s", {"span": ["t", 1, 2]}, [["t", 1, 2], ["s", 3]], {"a": {"b": ["t", 1]}}, ["t", 1, 2]]
 FS_POOL = [[], ["a"], ["a", "b"], ["b", "a"], ["x", "yy", "zzz"], ["zzz", "x", "yy"], ["8", "16", "0"], ["16", "8", "0"]]
 TOK_POOL = ["t", "u", ""]
 
@@ -511,7 +523,22 @@ def _enum_tok(x: Any) -> Any:
     return x
 
 
+class Sentinel:
+    """a value that compares by identity (no __eq__): copies of it are different values"""
+
+    def __init__(self, tag: str) -> None:
+        self.tag = tag
+
+    def __repr__(self) -> str:
+        return f"<Sentinel {self.tag}>"
+
+
+SENTINELS = {"s1": Sentinel("s1"), "s2": Sentinel("s2")}
+
+
 def _anybox(j: Any) -> Any:
+    if isinstance(j, dict) and set(j) == {"sentinel"}:
+        return SENTINELS[j["sentinel"]]
     """fresh containers for every decode; ["t", ...] stands for a tuple, ["s", ...] for a set"""
     if isinstance(j, dict):
         return {k: _anybox(v) for k, v in j.items()}
@@ -525,6 +552,8 @@ def _anybox(j: Any) -> Any:
 
 
 def _anybox_enc(v: Any) -> Any:
+    if isinstance(v, Sentinel):
+        return {"sentinel": v.tag}
     if isinstance(v, dict):
         return {k: _anybox_enc(x) for k, x in v.items()}
     if isinstance(v, tuple):
